@@ -382,3 +382,28 @@ def resolve(I, mod, qual):
     for p in parts[1:]:
         v = I.getattr_(v, p)
     return v
+
+
+class LoopSpec(object):
+    """Invariant of one loop of the function under contract, keyed by (qualified name, loop ordinal).
+    inv(I, env, k, st0) yields (name, formula) pairs describing the state after k iterations;
+    havoc(I, env, st0) replaces everything the loop may modify by fresh symbols."""
+
+    def __init__(self, inv, havoc=None, snapshot=None, keeps=()):
+        self._inv = inv
+        self._havoc = havoc
+        self._snapshot = snapshot
+        self._keeps = tuple(keeps)
+
+    def inv(self, I, env, k, st0):
+        return list(self._inv(I, env, k, st0))
+
+    def havoc(self, I, env, st0):
+        if self._havoc is not None:
+            self._havoc(I, env, st0)
+
+    def snapshot(self, I, env):
+        return self._snapshot(I, env) if self._snapshot is not None else None
+
+    def keeps(self, env):
+        return self._keeps
